@@ -77,6 +77,8 @@ class OpsMixin(object):
 
     # ------------------------------------------------------------------ arithmetic
     def binop(self, op, a, b, inplace=False):
+        if op == "%" and isinstance(a, (str, FmtStr)):
+            return self.str_format(a, b)
         if isinstance(a, Obj) and a.num is None or isinstance(b, Obj) and b.num is None:
             return self.obj_binop(op, a, b, inplace)
         a = self.unwrap_num(a)
@@ -522,6 +524,12 @@ class OpsMixin(object):
                             return True
                 if item == "." and any(("f" in n.fmt and not n.stripped) for n in container.nums()):
                     return True
+                if item in (".", "E", "e") and len(container.parts) == 1 and container.nums() and \
+                        container.nums()[0].fmt.endswith("G"):
+                    # a %G numeral may or may not contain a dot / an exponent; the representative spelling is the
+                    # fixed-point one with a fractional part (A5: the branches taken on the spelling only strip
+                    # zeros, which does not change the value the numeral denotes)
+                    return item == "."
                 if item == "." and any(n.stripped for n in container.nums()):
                     raise Undecided("'.' in stripped numeral")
                 for piece in tmpl.split("\x00"):
